@@ -7,6 +7,7 @@ CONSTANTS
     Req <- ReqTwo
     Style <- StyleT2
     Privileged = TRUE
+    Mixed = FALSE
     KnownDev = {}
     MaxCrashes = 0
 INVARIANT C16_AllSucceed
